@@ -4,6 +4,7 @@ From Cctp Require Import Model.Codec Model.State Model.Ledger Model.Handlers Mod
 From Cctp Require Import Proofs.MonadFacts Proofs.StoreFacts Proofs.PaginateFacts Proofs.RegistryFacts Proofs.AdminFacts.
 From Cctp Require Import Gen.GenLib Gen.Consts Gen.CheckKeys.
 From Cctp Require Import Gen.GoH_LinkTokenPair Gen.GoH_UnlinkTokenPair Gen.GoH_AddRemoteTokenMessenger Gen.GoH_RemoveRemoteTokenMessenger Gen.GoH_SetMaxBurnAmountPerMessage Gen.GoH_UpdateMaxMessageBodySize.
+From Cctp Require Import Gen.GoQ_LocalDomain Gen.GoQ_LocalMessageVersion Gen.GoQ_BurnMessageVersion Gen.GoQ_Roles Gen.GoQ_BurningAndMintingPaused Gen.GoQ_SendingAndReceivingMessagesPaused Gen.GoQ_MaxMessageBodySize Gen.GoQ_NextAvailableNonce Gen.GoQ_SignatureThreshold Gen.GoQ_Attester Gen.GoQ_PerMessageBurnLimit Gen.GoQ_TokenPair Gen.GoQ_UsedNonce Gen.GoQ_RemoteTokenMessenger.
 
 (* ---- the map laws: adding creates exactly one entry, removal deletes exactly that entry, distinct keys
    never interfere (for the ordered map that stands for each collection) ---- *)
@@ -173,6 +174,29 @@ Theorem C19_go_registry_handlers_are_the_model :
   go_UpdateMaxMessageBodySize_ok.
 Proof. split; [exact go_LinkTokenPair_ok_proof|]. split; [exact go_UnlinkTokenPair_ok_proof|]. split; [exact go_AddRemoteTokenMessenger_ok_proof|]. split; [exact go_RemoveRemoteTokenMessenger_ok_proof|]. split; [exact go_SetMaxBurnAmountPerMessage_ok_proof|]. exact go_UpdateMaxMessageBodySize_ok_proof. Qed.
 
+(* The fourteen single-answer gRPC queries of keeper/grpc_query_*.go AS TRANSLATED from /repo on this run (tools/goextract ->
+   Gen/GoQ_*.v): each answers exactly what the model's run_query answers, fails where it fails (not found), panics where it
+   panics (Roles with an unset slot) and changes nothing (go_q_X_ok: forall request h, go_q_X request h = (match run_query
+   (h_st h) (QX request) with QOk r => ROk r | QErr => RErr | QPanic => RPanic end, h)).  The five paginated queries hand a
+   closure to the SDK's query.Paginate and are not translated (they are tied by differential execution; their model is
+   Lib/Paginate.v).  For a query the translator could not read the conjunct is True (the generated file names the reason). *)
+Theorem C19_go_queries_are_the_model :
+  go_q_LocalDomain_ok /\
+  go_q_LocalMessageVersion_ok /\
+  go_q_BurnMessageVersion_ok /\
+  go_q_Roles_ok /\
+  go_q_BurningAndMintingPaused_ok /\
+  go_q_SendingAndReceivingMessagesPaused_ok /\
+  go_q_MaxMessageBodySize_ok /\
+  go_q_NextAvailableNonce_ok /\
+  go_q_SignatureThreshold_ok /\
+  go_q_Attester_ok /\
+  go_q_PerMessageBurnLimit_ok /\
+  go_q_TokenPair_ok /\
+  go_q_UsedNonce_ok /\
+  go_q_RemoteTokenMessenger_ok.
+Proof. split; [exact go_q_LocalDomain_ok_proof|]. split; [exact go_q_LocalMessageVersion_ok_proof|]. split; [exact go_q_BurnMessageVersion_ok_proof|]. split; [exact go_q_Roles_ok_proof|]. split; [exact go_q_BurningAndMintingPaused_ok_proof|]. split; [exact go_q_SendingAndReceivingMessagesPaused_ok_proof|]. split; [exact go_q_MaxMessageBodySize_ok_proof|]. split; [exact go_q_NextAvailableNonce_ok_proof|]. split; [exact go_q_SignatureThreshold_ok_proof|]. split; [exact go_q_Attester_ok_proof|]. split; [exact go_q_PerMessageBurnLimit_ok_proof|]. split; [exact go_q_TokenPair_ok_proof|]. split; [exact go_q_UsedNonce_ok_proof|]. exact go_q_RemoteTokenMessenger_ok_proof. Qed.
+
 Print Assumptions C19_map_laws.
 Print Assumptions C19_store_keys_prefix_free.
 Print Assumptions C19_enable_attester.
@@ -193,3 +217,4 @@ Print Assumptions C19_pages_cover_key_mode.
 Print Assumptions C19_pages_cover_offset_mode.
 Print Assumptions C19_collections_are_sorted_with_nonempty_keys.
 Print Assumptions C19_go_registry_handlers_are_the_model.
+Print Assumptions C19_go_queries_are_the_model.
